@@ -164,6 +164,11 @@ def ejson_agreement(ctx):
                 r = tables.const_set(ctx, EJ, df[0])
                 detail = 'written %s parsed %s' % (sorted(w), sorted(r))
                 ok = ok and {tables.norm_fmt(x) for x in w} == r and len(r) == 1
+                # the write format is the platform-probed constant: where strftime does not pad %Y, only %04Y writes a year below 1000
+                # with the four digits the reader needs
+                if ok and any('%Y' in tables.norm_fmt(x) for x in w) and not any('%04Y' in x for x in w):
+                    ok = False
+                    detail += ' (the format written with never pads the year)'
         run.check(ok, 'R16', where(repo, test), d.qualname, '%s: %s <-> %s' % (tag, ptxt[:60], btxt[:60]),
                   'what the encoder writes for %s is not what the decoder reads' % tag, detail=detail)
     # datetime payload: 3-tuple <-> 3-unpack, offset in seconds <-> timedelta(seconds=)
